@@ -17,7 +17,17 @@ import (
 	"time"
 )
 
-const verif = "/verif"
+// verif is the framework root: the directory above bin/ (so a snapshot of /verif runs on its own files)
+var verif = func() string {
+	if exe, err := os.Executable(); err == nil {
+		if d := filepath.Dir(filepath.Dir(exe)); d != "" {
+			if _, err := os.Stat(filepath.Join(d, "harness")); err == nil {
+				return d
+			}
+		}
+	}
+	return "/verif"
+}()
 
 type Plan struct {
 	Scenario string
